@@ -22,6 +22,9 @@ CLAIMED = {
  "C19": dict(tech="deterministic simulation of a clocked process: the natively compiled TC program on a simulated kernel clock over a real kernel map written by the real qos.Manager; oracle = exact rational reference bounds (upper over all windows, lower for a backlogged subscriber, rate 0 unlimited)",
    text="Seeded exploration of arrival processes (sizes 1-65535, gaps 0 ns to days, kernel clock anywhere in 64 bits, rates 1 kbit/s-100 Gbit/s, bursts 1-2^32-1) against bpf/qos_ratelimit.c compiled natively, with the bucket written by the real control plane through cilium/ebpf into a real kernel map. Sampling, not proof.",
    note="Native code generation instead of the BPF back end; one CPU at a time on a bucket; in-place map mutation emulated by lookup + write-back; needs CAP_BPF/root to create maps (a run that cannot create maps records the probe kernel_maps_unavailable and checks nothing).", ref="§5 C19"),
+ "C03": dict(tech="deterministic simulation of a two-tier system: natively compiled XDP program as the kernel node (simulated kernel uptime clock) in front of the real userspace DHCP server, sharing real kernel maps; oracle = frame well-formedness parser + differential agreement with the userspace reply + PASS-means-unmodified + no answer once the userspace lease is gone",
+   text="Seeded exploration of DHCP message histories (untagged/802.1Q/QinQ, IHL 5/6, padding and option-layout classes, direct and relayed) driven through bpf/dhcp_fastpath.c compiled natively and then through the real slow path, with the cache written by the real Loader/PoolManager/Server into real kernel maps created with the C-declared sizes, two clock domains, and pool/lease/DNS/server-id configurations. Sampling, not proof.",
+   note="Native code generation instead of the BPF back end; XDP attach/driver/NIC are not modelled; 'expired in userspace' means the lease has left the lease table; pools larger than /20 are not materialised; needs CAP_BPF/root to create maps.", ref="§5 C03"),
 }
 NA = {
  "C06": "static relation between Go and C declarations (sizes, offsets, byte order, key derivation for all inputs): no schedule, clock, fault or history can change it, so it is not a simulation target",
